@@ -1,6 +1,6 @@
 import CnbVerif.Model.Packager
 import CnbVerif.Spec.Packaging
-import CnbVerif.Lemmas.DepGraphIds
+import CnbVerif.Props.C13
 /-!
 C15 helper lemmas: the flat tree (`lookup` after `write` / `removeAll` / `writeAll` / `applyStep` / a fold of steps),
 the entries of one packaged directory, the planning loop, the inversion of `package`, sorting.
@@ -11,6 +11,12 @@ open CnbVerif.Chars CnbVerif.PkgDescriptor CnbVerif.DepGraph CnbVerif.Spec.Topo
 /-! ### the flat tree -/
 
 set_option linter.unusedSimpArgs false
+
+theorem isPrefixOf_self (l : Path) : l.isPrefixOf l = true := by
+  rw [List.isPrefixOf_iff_prefix]; exact List.prefix_refl l
+
+theorem isPrefixOf_append (l r : Path) : l.isPrefixOf (l ++ r) = true := by
+  rw [List.isPrefixOf_iff_prefix]; exact List.prefix_append l r
 
 theorem lookup_write (p q : Path) (n : Node) (fs : FS) :
     lookup (write p n fs) q = if p = q then some n else lookup fs q := by
@@ -38,3 +44,688 @@ theorem lookup_removeAll (p q : Path) (fs : FS) :
         exact ih
       · simp only [List.filter_cons, hp, Bool.not_false, if_true, List.find?_cons, hb]
         exact ih
+
+theorem lookup_writeAll (dest : Path) (its : List (Path × Node)) (fs : FS) (q : Path) :
+    lookup (writeAll dest its fs) q =
+      match its.reverse.find? (fun it => dest ++ it.1 == q) with
+      | some it => some it.2
+      | none => lookup fs q := by
+  induction its generalizing fs with
+  | nil => simp [writeAll]
+  | cons it its ih =>
+    have hstep : writeAll dest (it :: its) fs = writeAll dest its (write (dest ++ it.1) it.2 fs) := by
+      simp [writeAll]
+    rw [hstep, ih, List.reverse_cons, List.find?_append]
+    cases hf : its.reverse.find? (fun it => dest ++ it.1 == q) with
+    | some x => simp
+    | none =>
+      simp only [Option.none_or, List.find?_cons, List.find?_nil]
+      rw [lookup_write]
+      by_cases h : dest ++ it.1 = q
+      · simp [h]
+      · have hb : (dest ++ it.1 == q) = false := by simpa using h
+        simp [h, hb]
+
+/-- what one iteration leaves at `q`, given what was there -/
+def stepValue (s : Step) (q : Path) (old : Option Node) : Option Node :=
+  match s.items.reverse.find? (fun it => s.dest ++ it.1 == q) with
+  | some it => some it.2
+  | none => if s.dest = q then some .dir else if s.dest.isPrefixOf q then none else old
+
+theorem lookup_applyStep (fs : FS) (s : Step) (q : Path) :
+    lookup (applyStep fs s) q = stepValue s q (lookup fs q) := by
+  unfold applyStep stepValue
+  rw [lookup_writeAll]
+  cases hf : s.items.reverse.find? (fun it => s.dest ++ it.1 == q) with
+  | some x => rfl
+  | none => simp only [lookup_write, lookup_removeAll]
+
+/-- a path below the destination of a step does not depend on what was there before -/
+theorem stepValue_inside (s : Step) (q : Path) (a b : Option Node) (h : s.dest.isPrefixOf q = true) :
+    stepValue s q a = stepValue s q b := by
+  unfold stepValue
+  cases s.items.reverse.find? (fun it => s.dest ++ it.1 == q) with
+  | some x => rfl
+  | none => simp [h]
+
+/-- a path not below the destination of a step is left alone -/
+theorem stepValue_outside (s : Step) (q : Path) (a : Option Node) (h : s.dest.isPrefixOf q = false) :
+    stepValue s q a = a := by
+  unfold stepValue
+  have hne : s.dest ≠ q := by
+    intro e; rw [e, isPrefixOf_self] at h; cases h
+  cases hf : s.items.reverse.find? (fun it => s.dest ++ it.1 == q) with
+  | some x =>
+    exfalso
+    have := List.find?_some hf
+    simp only [beq_iff_eq] at this
+    rw [← this, isPrefixOf_append] at h
+    cases h
+  | none => simp [h, hne]
+
+/-- seed independence, one path: equal before or wiped on the way ⇒ equal after -/
+theorem lookup_steps_congr (steps : List Step) (q : Path) (fs₁ fs₂ : FS)
+    (h : lookup fs₁ q = lookup fs₂ q ∨ ∃ s ∈ steps, s.dest.isPrefixOf q = true) :
+    lookup (steps.foldl applyStep fs₁) q = lookup (steps.foldl applyStep fs₂) q := by
+  induction steps generalizing fs₁ fs₂ with
+  | nil =>
+    rcases h with h | ⟨s, hs, _⟩
+    · exact h
+    · simp at hs
+  | cons s rest ih =>
+    simp only [List.foldl_cons]
+    apply ih
+    by_cases hp : s.dest.isPrefixOf q = true
+    · left
+      rw [lookup_applyStep, lookup_applyStep]
+      exact stepValue_inside s q _ _ hp
+    · rcases h with h | ⟨s', hs', hp'⟩
+      · left
+        rw [lookup_applyStep, lookup_applyStep, h]
+      · rcases List.mem_cons.1 hs' with rfl | hm
+        · exact absurd hp' hp
+        · right; exact ⟨s', hm, hp'⟩
+
+/-- frame: a path below no destination keeps what it had -/
+theorem lookup_steps_outside (steps : List Step) (q : Path) (fs : FS)
+    (h : ∀ s ∈ steps, s.dest.isPrefixOf q = false) :
+    lookup (steps.foldl applyStep fs) q = lookup fs q := by
+  induction steps generalizing fs with
+  | nil => rfl
+  | cons s rest ih =>
+    simp only [List.foldl_cons]
+    rw [ih _ (fun s' hs' => h s' (List.mem_cons_of_mem _ hs')), lookup_applyStep,
+      stepValue_outside s q _ (h s (List.mem_cons_self ..))]
+
+/-! ### one packaged directory -/
+
+/-- what a freshly written directory holds at a relative path: the last entry written there; the directory itself -/
+def atRel (items : List (Path × Node)) (rel : Path) : Option Node :=
+  match items.reverse.find? (fun it => it.1 == rel) with
+  | some it => some it.2
+  | none => if rel = [] then some .dir else none
+
+theorem stepValue_rel (s : Step) (rel : Path) (old : Option Node) :
+    stepValue s (s.dest ++ rel) old = atRel s.items rel := by
+  unfold stepValue atRel
+  have hfun : (fun it : Path × Node => s.dest ++ it.1 == s.dest ++ rel) = (fun it => it.1 == rel) := by
+    funext it
+    by_cases h : it.1 = rel
+    · simp [h]
+    · have h1 : (it.1 == rel) = false := by simpa using h
+      have h2 : (s.dest ++ it.1 == s.dest ++ rel) = false := by simpa using h
+      rw [h1, h2]
+  rw [hfun]
+  cases items_find : s.items.reverse.find? (fun it => it.1 == rel) with
+  | some x => rfl
+  | none =>
+    by_cases hr : rel = []
+    · simp [hr]
+    · have : s.dest ≠ s.dest ++ rel := by
+        intro e
+        exact hr (List.self_eq_append_right.1 e)
+      simp [hr, this, isPrefixOf_append]
+
+theorem atRel_of_mem {items : List (Path × Node)} {k : Path} {v : Node} (hm : (k, v) ∈ items)
+    (hf : ∀ it ∈ items, it.1 = k → it.2 = v) : atRel items k = some v := by
+  unfold atRel
+  cases hfind : items.reverse.find? (fun it => it.1 == k) with
+  | some x =>
+    have h1 := List.find?_some hfind
+    have h2 := List.mem_of_find?_eq_some hfind
+    simp only [beq_iff_eq] at h1
+    simp [hf x (List.mem_reverse.1 h2) h1]
+  | none =>
+    exfalso
+    have := List.find?_eq_none.1 hfind (k, v) (List.mem_reverse.2 hm)
+    simp at this
+
+theorem atRel_some {items : List (Path × Node)} {rel : Path} {n : Node} (h : atRel items rel = some n) :
+    (rel = [] ∧ n = .dir) ∨ (rel, n) ∈ items := by
+  unfold atRel at h
+  cases hfind : items.reverse.find? (fun it => it.1 == rel) with
+  | some x =>
+    rw [hfind] at h
+    have h1 := List.find?_some hfind
+    have h2 := List.mem_of_find?_eq_some hfind
+    simp only [beq_iff_eq] at h1
+    simp only [Option.some.injEq] at h
+    right
+    have : x = (rel, n) := by cases x; simp_all
+    rw [← this]; exact List.mem_reverse.1 h2
+  | none =>
+    rw [hfind] at h
+    by_cases hr : rel = []
+    · simp [hr] at h; exact Or.inl ⟨hr, h.symm⟩
+    · simp [hr] at h
+
+theorem prefix_same_length {a b rel : Path} (h : a.isPrefixOf (b ++ rel) = true) (hl : a.length = b.length) : a = b := by
+  rw [List.isPrefixOf_iff_prefix] at h
+  have := List.prefix_iff_eq_take.1 h
+  rw [hl, List.take_left'] at this
+  · exact this
+  · rfl
+
+/-- with destinations of one length and pairwise distinct, a fold of steps leaves below the destination of a step
+exactly what that step wrote -/
+theorem lookup_steps_inside (steps : List Step) (n : Nat) (hlen : ∀ a ∈ steps, a.dest.length = n)
+    (hnd : (steps.map (·.dest)).Nodup) (s : Step) (hs : s ∈ steps) (rel : Path) (fs : FS) :
+    lookup (steps.foldl applyStep fs) (s.dest ++ rel) = atRel s.items rel := by
+  obtain ⟨pre, post, rfl⟩ := List.append_of_mem hs
+  rw [List.foldl_append, List.foldl_cons]
+  have hpost : ∀ s' ∈ post, s'.dest.isPrefixOf (s.dest ++ rel) = false := by
+    intro s' hs'
+    cases hp : s'.dest.isPrefixOf (s.dest ++ rel) with
+    | false => rfl
+    | true =>
+      exfalso
+      have heq : s'.dest = s.dest := prefix_same_length hp
+        ((hlen s' (by simp [hs'])).trans (hlen s (by simp)).symm)
+      simp only [List.map_append, List.map_cons] at hnd
+      have h2 := (List.nodup_append.1 hnd).2.1
+      have h3 := (List.nodup_cons.1 h2).1
+      exact h3 (heq ▸ List.mem_map.2 ⟨s', hs', rfl⟩)
+  rw [lookup_steps_outside post _ _ hpost, lookup_applyStep, stepValue_rel]
+
+/-! ### main binary, entries of a packaged directory -/
+
+open CnbVerif.Spec.Packaging in
+theorem mainTarget_ok_iff (p : String) (bins : List String) (m : String) :
+    mainTarget p bins = .ok m ↔ mainOf p bins = some m := by
+  unfold mainTarget mainOf
+  match bins with
+  | [] => simp
+  | [b] => simp
+  | b :: c :: rest =>
+    by_cases h : p ∈ b :: c :: rest
+    · have hc : (b :: c :: rest).contains p = true := by simpa using h
+      simp [h, hc]
+    · have hc : (b :: c :: rest).contains p = false := by simpa using h
+      simp [h, hc]
+
+open CnbVerif.Spec.Packaging in
+theorem additional_eq (m : String) (bins : List String) : additionalTargets m bins = additionalOf m bins := rfl
+
+theorem mem_libcnbItems {profile : Profile} {d p m : String} {adds : List String} {it : Path × Node} :
+    it ∈ libcnbItems profile d p m adds ↔
+      it = (["buildpack.toml"], .file (.raw d)) ∨ it = (["bin"], .dir) ∨
+      it = (["bin", "build"], .file (.artifact p m profile)) ∨ it = (["bin", "detect"], .link "build") ∨
+      (adds ≠ [] ∧ it = (additionalDir, .dir)) ∨
+      (∃ n ∈ adds, it = (additionalDir ++ [n], .file (.artifact p n profile))) ∨
+      it = (["package.toml"], .file (.pkg libcnbPackageToml)) := by
+  unfold libcnbItems
+  cases adds with
+  | nil => simp
+  | cons a rest =>
+    simp only [List.isEmpty_cons, Bool.false_eq_true, if_false, List.mem_append, List.mem_cons, List.mem_map,
+      List.not_mem_nil, or_false, ne_eq, reduceCtorEq, not_false_eq_true, true_and]
+    constructor
+    · intro h
+      rcases h with (h | h) | h
+      · rcases h with h | h | h | h
+        · exact Or.inl h
+        · exact Or.inr (Or.inl h)
+        · exact Or.inr (Or.inr (Or.inl h))
+        · exact Or.inr (Or.inr (Or.inr (Or.inl h)))
+      · rcases h with h | h
+        · exact Or.inr (Or.inr (Or.inr (Or.inr (Or.inl h))))
+        · obtain ⟨n, hn, he⟩ := h
+          exact Or.inr (Or.inr (Or.inr (Or.inr (Or.inr (Or.inl ⟨n, hn, he.symm⟩)))))
+      · exact Or.inr (Or.inr (Or.inr (Or.inr (Or.inr (Or.inr h)))))
+    · intro h
+      rcases h with h | h | h | h | h | h | h
+      · exact Or.inl (Or.inl (Or.inl h))
+      · exact Or.inl (Or.inl (Or.inr (Or.inl h)))
+      · exact Or.inl (Or.inl (Or.inr (Or.inr (Or.inl h))))
+      · exact Or.inl (Or.inl (Or.inr (Or.inr (Or.inr h))))
+      · exact Or.inl (Or.inr (Or.inl h))
+      · obtain ⟨n, hn, he⟩ := h
+        exact Or.inl (Or.inr (Or.inr ⟨n, hn, he.symm⟩))
+      · exact Or.inr h
+
+open CnbVerif.Spec.Packaging in
+theorem linksToBuild_build : linksToBuild "build" = true := by decide +kernel
+
+open CnbVerif.Spec.Packaging in
+/-- a directory that received exactly the entries of `libcnbItems` is a complete packaged libcnb.rs buildpack -/
+theorem libcnbItems_packaged (profile : Profile) (d p m : String) (adds : List String) :
+    PackagedLibcnb (atRel (libcnbItems profile d p m adds)) d p m adds profile := by
+  have key : ∀ (k : Path) (v : Node), (k, v) ∈ libcnbItems profile d p m adds →
+      (∀ it ∈ libcnbItems profile d p m adds, it.1 = k → it.2 = v) →
+      atRel (libcnbItems profile d p m adds) k = some v := fun k v h1 h2 => atRel_of_mem h1 h2
+  refine ⟨?_, ?_, ?_, ⟨"build", ?_, linksToBuild_build⟩, ?_, ⟨libcnbPackageToml, ?_⟩, ?_⟩
+  · apply key
+    · exact mem_libcnbItems.2 (Or.inl rfl)
+    · intro it hit hk
+      rcases mem_libcnbItems.1 hit with rfl | rfl | rfl | rfl | ⟨_, rfl⟩ | ⟨n, _, rfl⟩ | rfl <;>
+        first | rfl | (simp [additionalDir, relBuildpackToml] at hk)
+  · apply key
+    · exact mem_libcnbItems.2 (Or.inr (Or.inl rfl))
+    · intro it hit hk
+      rcases mem_libcnbItems.1 hit with rfl | rfl | rfl | rfl | ⟨_, rfl⟩ | ⟨n, _, rfl⟩ | rfl <;>
+        first | rfl | (simp [additionalDir, relBin] at hk)
+  · apply key
+    · exact mem_libcnbItems.2 (Or.inr (Or.inr (Or.inl rfl)))
+    · intro it hit hk
+      rcases mem_libcnbItems.1 hit with rfl | rfl | rfl | rfl | ⟨_, rfl⟩ | ⟨n, _, rfl⟩ | rfl <;>
+        first | rfl | (simp [additionalDir, relBuild] at hk)
+  · apply key
+    · exact mem_libcnbItems.2 (Or.inr (Or.inr (Or.inr (Or.inl rfl))))
+    · intro it hit hk
+      rcases mem_libcnbItems.1 hit with rfl | rfl | rfl | rfl | ⟨_, rfl⟩ | ⟨n, _, rfl⟩ | rfl <;>
+        first | rfl | (simp [additionalDir, relDetect] at hk)
+  · intro a ha
+    apply key
+    · exact mem_libcnbItems.2 (Or.inr (Or.inr (Or.inr (Or.inr (Or.inr (Or.inl ⟨a, ha, rfl⟩))))))
+    · intro it hit hk
+      rcases mem_libcnbItems.1 hit with rfl | rfl | rfl | rfl | ⟨_, rfl⟩ | ⟨n, _, rfl⟩ | rfl <;>
+        first | (simp [additionalDir, relAdditional] at hk; done) | skip
+      simp only [additionalDir, relAdditional, List.cons_append, List.nil_append, List.cons.injEq, and_true, true_and] at hk
+      subst hk; rfl
+  · apply key
+    · exact mem_libcnbItems.2 (Or.inr (Or.inr (Or.inr (Or.inr (Or.inr (Or.inr rfl))))))
+    · intro it hit hk
+      rcases mem_libcnbItems.1 hit with rfl | rfl | rfl | rfl | ⟨_, rfl⟩ | ⟨n, _, rfl⟩ | rfl <;>
+        first | rfl | (simp [additionalDir, relPackageToml] at hk)
+  · intro rel n h
+    rcases atRel_some h with ⟨hr, _⟩ | hm
+    · exact Or.inl hr
+    · rcases mem_libcnbItems.1 hm with he | he | he | he | ⟨hne, he⟩ | ⟨a, ha, he⟩ | he <;>
+        simp only [Prod.mk.injEq] at he <;> obtain ⟨h1, h2⟩ := he
+      · exact Or.inr (Or.inl h1)
+      · exact Or.inr (Or.inr (Or.inl h1))
+      · exact Or.inr (Or.inr (Or.inr (Or.inl h1)))
+      · exact Or.inr (Or.inr (Or.inr (Or.inr (Or.inl h1))))
+      · exact Or.inr (Or.inr (Or.inr (Or.inr (Or.inr (Or.inr (Or.inl ⟨hne, h2, Or.inr h1⟩))))))
+      · exact Or.inr (Or.inr (Or.inr (Or.inr (Or.inr (Or.inr (Or.inr ⟨a, ha, h1⟩))))))
+      · exact Or.inr (Or.inr (Or.inr (Or.inr (Or.inr (Or.inl h1)))))
+
+open CnbVerif.Spec.Packaging in
+theorem compositeItems_packaged (d : String) (out : Descriptor) :
+    PackagedComposite (atRel (compositeItems d out)) d out := by
+  refine ⟨?_, ?_, ?_⟩
+  · apply atRel_of_mem
+    · simp [compositeItems, relBuildpackToml]
+    · intro it hit hk
+      simp only [compositeItems, List.mem_cons, List.not_mem_nil, or_false] at hit
+      rcases hit with rfl | rfl
+      · rfl
+      · simp [relBuildpackToml] at hk
+  · apply atRel_of_mem
+    · simp [compositeItems, relPackageToml]
+    · intro it hit hk
+      simp only [compositeItems, List.mem_cons, List.not_mem_nil, or_false] at hit
+      rcases hit with rfl | rfl
+      · simp [relPackageToml] at hk
+      · rfl
+  · intro rel n h
+    rcases atRel_some h with ⟨hr, _⟩ | hm
+    · exact Or.inl hr
+    · simp only [compositeItems, List.mem_cons, List.not_mem_nil, or_false, Prod.mk.injEq] at hm
+      rcases hm with ⟨h1, _⟩ | ⟨h1, _⟩
+      · exact Or.inr (Or.inl h1)
+      · exact Or.inr (Or.inr h1)
+
+/-! ### the planning loop -/
+
+theorem planLoop_ok {ws : Workspace} {cfg : Config} {pk : Str} :
+    ∀ (bps : List Buildpack) (dirs : List (String × Str)) {steps : List Step} {dirs' : List (String × Str)},
+      planLoop ws cfg pk bps dirs = .ok (steps, dirs') →
+      dirs' = dirs ++ bps.map (fun bp => (bp.id, destStr pk cfg bp.id)) ∧
+      steps.map (·.id) = bps.map (·.id) ∧
+      steps.map (·.dest) = bps.map (fun bp => destPath cfg bp.id) ∧
+      ∀ s ∈ steps, ∃ bp ∈ bps, ∃ before : List (String × Str),
+        s.id = bp.id ∧ s.dest = destPath cfg bp.id ∧ itemsFor ws cfg before bp = .ok s.items ∧
+        ∀ e ∈ before, e ∈ dirs ∨ ∃ b ∈ bps, e = (b.id, destStr pk cfg b.id) := by
+  intro bps
+  induction bps with
+  | nil =>
+    intro dirs steps dirs' h
+    simp only [planLoop, Except.ok.injEq, Prod.mk.injEq] at h
+    obtain ⟨rfl, rfl⟩ := h
+    simp
+  | cons bp rest ih =>
+    intro dirs steps dirs' h
+    unfold planLoop at h
+    cases hs : planStep ws cfg dirs bp with
+    | error e => rw [hs] at h; cases h
+    | ok s =>
+      rw [hs] at h
+      simp only at h
+      cases hr : planLoop ws cfg pk rest (dirs ++ [(bp.id, destStr pk cfg bp.id)]) with
+      | error e => rw [hr] at h; cases h
+      | ok r =>
+        obtain ⟨ss, d2⟩ := r
+        rw [hr] at h
+        simp only [Except.ok.injEq, Prod.mk.injEq] at h
+        obtain ⟨rfl, rfl⟩ := h
+        obtain ⟨h1, h2, h3, h4⟩ := ih _ hr
+        unfold planStep at hs
+        cases hi : itemsFor ws cfg dirs bp with
+        | error e => rw [hi] at hs; cases hs
+        | ok items =>
+          rw [hi] at hs
+          simp only [Except.ok.injEq] at hs
+          subst hs
+          refine ⟨by simp [h1], by simp [h2], by simp [h3], ?_⟩
+          intro s hsm
+          rcases List.mem_cons.1 hsm with rfl | hsm
+          · exact ⟨bp, List.mem_cons_self .., dirs, rfl, rfl, hi, fun e he => Or.inl he⟩
+          · obtain ⟨b, hb, before, e1, e2, e3, e4⟩ := h4 s hsm
+            refine ⟨b, List.mem_cons_of_mem _ hb, before, e1, e2, e3, ?_⟩
+            intro e he
+            rcases e4 e he with h5 | ⟨b', hb', rfl⟩
+            · rcases List.mem_append.1 h5 with h6 | h6
+              · exact Or.inl h6
+              · simp only [List.mem_cons, List.not_mem_nil, or_false] at h6
+                exact Or.inr ⟨bp, List.mem_cons_self .., h6⟩
+            · exact Or.inr ⟨b', List.mem_cons_of_mem _ hb', rfl⟩
+
+theorem toNodes_ids : ∀ {bps : List Buildpack} {nodes : List DepGraph.Node}, toNodes bps = .ok nodes →
+    nodes.map (·.id) = bps.map (·.id) := by
+  intro bps
+  induction bps with
+  | nil => intro nodes h; simp only [toNodes, Except.ok.injEq] at h; subst h; rfl
+  | cons bp rest ih =>
+    intro nodes h
+    unfold toNodes at h
+    cases hn : toNode bp with
+    | error e => rw [hn] at h; cases h
+    | ok n =>
+      rw [hn] at h
+      simp only at h
+      cases hr : toNodes rest with
+      | error e => rw [hr] at h; cases h
+      | ok ns =>
+        rw [hr] at h
+        simp only [Except.ok.injEq] at h
+        subst h
+        have hid : n.id = bp.id := by
+          unfold toNode at hn
+          split at hn
+          · split at hn
+            · cases hn
+            · simp only [Except.ok.injEq] at hn; subst hn; rfl
+          · simp only [Except.ok.injEq] at hn; subst hn; rfl
+        simp [hid, ih hr]
+
+/-! ### inversion of `plan` and `package` -/
+
+theorem plan_ok {ws : Workspace} {inv : Str} {cfg : Config} {pl : Plan} (hp : plan ws inv cfg = .ok pl) :
+    ∃ nodes g order,
+      toNodes (nodesOf ws) = .ok nodes ∧ createGraph nodes = .ok g ∧
+      getDependencies g (rootIds ws inv) = .ok order ∧ order ≠ [] ∧
+      planLoop ws cfg (packageDirAbs ws inv cfg) (order.filterMap (fun i => (nodesOf ws)[i]?)) [] = .ok (pl.steps, pl.dirs) ∧
+      pl.roots = rootIds ws inv := by
+  unfold plan at hp
+  simp only at hp
+  cases hn : toNodes (nodesOf ws) with
+  | error e => rw [hn] at hp; cases hp
+  | ok nodes =>
+    rw [hn] at hp
+    simp only at hp
+    cases hg : createGraph nodes with
+    | error e => rw [hg] at hp; cases hp
+    | ok g =>
+      rw [hg] at hp
+      simp only at hp
+      cases ho : getDependencies g (rootIds ws inv) with
+      | error e => rw [ho] at hp; cases hp
+      | ok order =>
+        rw [ho] at hp
+        simp only at hp
+        by_cases he : order.isEmpty = true
+        · rw [if_pos he] at hp; cases hp
+        · rw [if_neg he] at hp
+          cases hl : planLoop ws cfg (packageDirAbs ws inv cfg) (order.filterMap (fun i => (nodesOf ws)[i]?)) [] with
+          | error e => rw [hl] at hp; cases hp
+          | ok r =>
+            obtain ⟨steps, dirs⟩ := r
+            rw [hl] at hp
+            simp only [Except.ok.injEq] at hp
+            subst hp
+            refine ⟨nodes, g, order, rfl, hg, ho, ?_, hl, rfl⟩
+            intro hnil; rw [hnil] at he; simp at he
+
+theorem package_ok {ws : Workspace} {inv : Str} {cfg : Config} {seed : FS} {res : Result}
+    (h : package ws inv cfg seed = .ok res) :
+    ∃ pl, plan ws inv cfg = .ok pl ∧
+      res = ⟨pl.steps.foldl applyStep seed, stdoutLines pl.roots pl.dirs, pl.steps.map (·.id)⟩ := by
+  unfold package at h
+  cases hp : plan ws inv cfg with
+  | error e => rw [hp] at h; cases h
+  | ok pl =>
+    rw [hp] at h
+    simp only [Except.ok.injEq] at h
+    exact ⟨pl, rfl, h.symm⟩
+
+/-- the outcome class and everything but the tree do not depend on what the package directory held -/
+theorem package_seed_shape (ws : Workspace) (inv : Str) (cfg : Config) (seed : FS) :
+    package ws inv cfg seed =
+      match plan ws inv cfg with
+      | .error e => .error e
+      | .ok pl => .ok ⟨pl.steps.foldl applyStep seed, stdoutLines pl.roots pl.dirs, pl.steps.map (·.id)⟩ := rfl
+
+/-! ### order, ids, sorting, names -/
+
+/-- the build order only holds positions of real nodes -/
+theorem order_lt {nodes : List DepGraph.Node} {g : Graph} {roots : List String} {order : List Nat}
+    (hg : createGraph nodes = .ok g) (hac : Acyclic g.succ) (ho : getDependencies g roots = .ok order) :
+    ∀ i ∈ order, i < g.size := by
+  obtain ⟨ridx, hr, hbo⟩ := CnbVerif.C13.build_order nodes g roots order hg hac ho
+  have hwf := createGraph_wf hg
+  have hrl := rootsAt_lt hg hr
+  intro i hi
+  have : Reachable g.succ ridx i := (hbo.exact i).1 hi
+  induction this with
+  | root hm => exact hrl _ hm
+  | step _ hw _ => exact hwf _ _ hw
+
+theorem filterMap_ids (bps : List Buildpack) (ids : List String) (hids : ids = bps.map (·.id)) :
+    ∀ order : List Nat, (∀ i ∈ order, i < bps.length) →
+      (order.filterMap (fun i => bps[i]?)).map (·.id) = order.map (fun i => ids.getD i "") := by
+  intro order
+  induction order with
+  | nil => intro _; rfl
+  | cons i rest ih =>
+    intro h
+    have hi : i < bps.length := h i (List.mem_cons_self ..)
+    have h1 : bps[i]? = some bps[i] := List.getElem?_eq_getElem hi
+    have h2 : ids.getD i "" = bps[i].id := by
+      subst hids
+      rw [List.getD_eq_getElem?_getD, List.getElem?_map, h1]; rfl
+    simp only [List.filterMap_cons, h1, List.map_cons, h2]
+    rw [ih (fun j hj => h j (List.mem_cons_of_mem _ hj))]
+
+theorem mem_filterMap_getElem {bps : List Buildpack} {order : List Nat} {bp : Buildpack}
+    (h : bp ∈ order.filterMap (fun i => bps[i]?)) : bp ∈ bps := by
+  obtain ⟨i, _, hi⟩ := List.mem_filterMap.1 h
+  exact List.mem_of_getElem? hi
+
+theorem eq_of_id_eq : ∀ {bps : List Buildpack}, (bps.map (·.id)).Nodup → ∀ {a b : Buildpack}, a ∈ bps → b ∈ bps →
+    a.id = b.id → a = b := by
+  intro bps
+  induction bps with
+  | nil => intro _ a b ha; simp at ha
+  | cons x rest ih =>
+    intro hnd a b ha hb hid
+    simp only [List.map_cons, List.nodup_cons] at hnd
+    rcases List.mem_cons.1 ha with hax | har
+    · rcases List.mem_cons.1 hb with hbx | hbr
+      · rw [hax, hbx]
+      · exact absurd (List.mem_map.2 ⟨b, hbr, by rw [← hid, hax]⟩) hnd.1
+    · rcases List.mem_cons.1 hb with hbx | hbr
+      · exact absurd (List.mem_map.2 ⟨a, har, by rw [hid, hbx]⟩) hnd.1
+      · exact ih hnd.2 har hbr hid
+
+theorem insertBy_perm {α} (lt : α → α → Bool) (x : α) : ∀ l : List α, (insertBy lt x l).Perm (x :: l)
+  | [] => List.Perm.refl _
+  | y :: ys => by
+    unfold insertBy
+    by_cases h : lt x y = true
+    · simp [h]
+    · simp only [h, if_false]
+      exact ((insertBy_perm lt x ys).cons y).trans (List.Perm.swap x y ys)
+
+theorem sortBy_perm {α} (lt : α → α → Bool) : ∀ l : List α, (sortBy lt l).Perm l
+  | [] => List.Perm.refl _
+  | x :: xs => by
+    have : sortBy lt (x :: xs) = insertBy lt x (sortBy lt xs) := rfl
+    rw [this]
+    exact (insertBy_perm lt x _).trans ((sortBy_perm lt xs).cons x)
+
+theorem map_slash_inj : ∀ {a b : List Char}, '_' ∉ a → '_' ∉ b →
+    a.map (fun c => if c = '/' then '_' else c) = b.map (fun c => if c = '/' then '_' else c) → a = b
+  | [], [], _, _, _ => rfl
+  | [], _ :: _, _, _, h => by simp at h
+  | _ :: _, [], _, _, h => by simp at h
+  | x :: xs, y :: ys, ha, hb, h => by
+    simp only [List.map_cons, List.cons.injEq] at h
+    simp only [List.mem_cons, not_or] at ha hb
+    have hxy : x = y := by
+      by_cases hx : x = '/' <;> by_cases hy : y = '/'
+      · rw [hx, hy]
+      · simp only [hx, hy, if_true, if_false] at h; exact absurd h.1 hb.1
+      · simp only [hx, hy, if_true, if_false] at h; exact absurd h.1.symm ha.1
+      · simp only [hx, hy, if_false] at h; exact h.1
+    rw [hxy, map_slash_inj ha.2 hb.2 h.2]
+
+/-- distinct ids over an alphabet without `_` (the CNB id alphabet) get distinct directory names -/
+theorem dirName_inj {a b : String} (ha : '_' ∉ a.toList) (hb : '_' ∉ b.toList) (h : dirName a = dirName b) : a = b := by
+  unfold dirName at h
+  exact String.toList_inj.1 (map_slash_inj ha hb (String.ofList_inj.1 h))
+
+/-- everything the property theorems need to know about a successful run -/
+theorem package_facts {ws : Workspace} {inv : Str} {cfg : Config} {seed : FS} {res : Result} {nodes : List DepGraph.Node}
+    (hn : toNodes (nodesOf ws) = .ok nodes) (hnd : ((nodesOf ws).map (·.id)).Nodup) (hac : Acyclic (depsOf nodes))
+    (h : package ws inv cfg seed = .ok res) :
+    ∃ steps dirs bps,
+      res.fs = steps.foldl applyStep seed ∧ res.built = steps.map (·.id) ∧
+      res.stdout = stdoutLines (rootIds ws inv) dirs ∧
+      IsBuildOrder (depsOf nodes) (rootIds ws inv) res.built ∧
+      (∀ bp ∈ bps, bp ∈ nodesOf ws) ∧ bps.map (·.id) = res.built ∧
+      planLoop ws cfg (packageDirAbs ws inv cfg) bps [] = .ok (steps, dirs) := by
+  obtain ⟨pl, hp, rfl⟩ := package_ok h
+  obtain ⟨nodes', g, order, hn', hg, ho, _, hl, hroots⟩ := plan_ok hp
+  obtain ⟨roots, steps, dirs⟩ := pl
+  simp only at hl hroots
+  subst hroots
+  rw [hn] at hn'
+  simp only [Except.ok.injEq] at hn'
+  subst hn'
+  have hids : nodes.map (·.id) = (nodesOf ws).map (·.id) := toNodes_ids hn
+  have hndn : (nodes.map (·.id)).Nodup := by rw [hids]; exact hnd
+  have hbo := CnbVerif.C13.build_order_ids nodes g (rootIds ws inv) order hndn hg hac ho
+  have hlt : ∀ i ∈ order, i < (nodesOf ws).length := by
+    intro i hi
+    have h1 := order_lt hg (acyclic_of_ids hg hndn hac) ho i hi
+    have h2 := (size_eq hg).1
+    have h3 : nodes.length = (nodesOf ws).length := by
+      have := congrArg List.length hids
+      simpa using this
+    omega
+  have hgids : g.ids = (nodesOf ws).map (·.id) := by rw [(createGraph_ok hg).1, hids]
+  have hb : (order.filterMap (fun i => (nodesOf ws)[i]?)).map (·.id) = order.map (idAt g) :=
+    filterMap_ids (nodesOf ws) g.ids hgids order hlt
+  obtain ⟨_, h2, _, _⟩ := planLoop_ok _ _ hl
+  refine ⟨steps, dirs, order.filterMap (fun i => (nodesOf ws)[i]?), rfl, rfl, rfl, ?_, ?_, ?_, hl⟩
+  · show IsBuildOrder (depsOf nodes) (rootIds ws inv) (steps.map (·.id))
+    rw [h2, hb]; exact hbo
+  · intro bp hbp; exact mem_filterMap_getElem hbp
+  · exact h2.symm
+
+theorem inj_of_nodup_map {α β} (f : α → β) : ∀ {l : List α}, (l.map f).Nodup → ∀ {a b : α}, a ∈ l → b ∈ l → f a = f b → a = b := by
+  intro l
+  induction l with
+  | nil => intro _ a b ha; simp at ha
+  | cons x rest ih =>
+    intro hnd a b ha hb hid
+    simp only [List.map_cons, List.nodup_cons] at hnd
+    rcases List.mem_cons.1 ha with hax | har
+    · rcases List.mem_cons.1 hb with hbx | hbr
+      · rw [hax, hbx]
+      · exact absurd (List.mem_map.2 ⟨b, hbr, by rw [← hid, hax]⟩) hnd.1
+    · rcases List.mem_cons.1 hb with hbx | hbr
+      · exact absurd (List.mem_map.2 ⟨a, har, by rw [hid, hbx]⟩) hnd.1
+      · exact ih hnd.2 har hbr hid
+
+theorem nodup_map_of_inj_on {α β} (f : α → β) : ∀ {l : List α}, l.Nodup → (∀ a ∈ l, ∀ b ∈ l, f a = f b → a = b) →
+    (l.map f).Nodup := by
+  intro l
+  induction l with
+  | nil => intro _ _; simp
+  | cons x rest ih =>
+    intro hnd hinj
+    simp only [List.nodup_cons] at hnd
+    simp only [List.map_cons, List.nodup_cons]
+    refine ⟨?_, ih hnd.2 (fun a ha b hb => hinj a (List.mem_cons_of_mem _ ha) b (List.mem_cons_of_mem _ hb))⟩
+    intro hm
+    obtain ⟨y, hy, hfy⟩ := List.mem_map.1 hm
+    have := hinj y (List.mem_cons_of_mem _ hy) x (List.mem_cons_self ..) hfy
+    exact hnd.1 (this ▸ hy)
+
+theorem nodup_of_nodup_map {α β} (f : α → β) : ∀ {l : List α}, (l.map f).Nodup → l.Nodup := by
+  intro l
+  induction l with
+  | nil => intro _; simp
+  | cons x rest ih =>
+    intro h
+    simp only [List.map_cons, List.nodup_cons] at h
+    simp only [List.nodup_cons]
+    exact ⟨fun hm => h.1 (List.mem_map.2 ⟨x, hm, rfl⟩), ih h.2⟩
+
+/-- every planned step writes to the packaged directory of its own id -/
+theorem plan_steps_dest {ws : Workspace} {inv : Str} {cfg : Config} {pl : Plan} (hp : plan ws inv cfg = .ok pl) :
+    ∀ s ∈ pl.steps, s.dest = destPath cfg s.id := by
+  obtain ⟨_, _, _, _, _, _, _, hl, _⟩ := plan_ok hp
+  obtain ⟨_, _, _, h4⟩ := planLoop_ok _ _ hl
+  intro s hs
+  obtain ⟨bp, _, _, e1, e2, _, _⟩ := h4 s hs
+  rw [e2, e1]
+
+theorem rootIds_nodup {ws : Workspace} (hnd : ((nodesOf ws).map (·.id)).Nodup) (inv : Str) : (rootIds ws inv).Nodup := by
+  unfold rootIds
+  split
+  · simp
+  · split
+    · exact hnd
+    · simp
+
+/-- what a successful run leaves in the packaged directory of a buildpack it built -/
+theorem built_lookup {ws : Workspace} {inv : Str} {cfg : Config} {seed : FS} {res : Result} {nodes : List DepGraph.Node}
+    (hn : toNodes (nodesOf ws) = .ok nodes) (hnd : ((nodesOf ws).map (·.id)).Nodup)
+    (hnames : ((nodesOf ws).map (fun bp => dirName bp.id)).Nodup) (hac : Acyclic (depsOf nodes))
+    (h : package ws inv cfg seed = .ok res) {bp : Buildpack} (hbp : bp ∈ nodesOf ws) (hb : bp.id ∈ res.built) :
+    ∃ before items, itemsFor ws cfg before bp = .ok items ∧
+      (∀ e ∈ before, ∃ b ∈ nodesOf ws, b.id ∈ res.built ∧ e = (b.id, destStr (packageDirAbs ws inv cfg) cfg b.id)) ∧
+      ∀ rel, lookup res.fs (destPath cfg bp.id ++ rel) = atRel items rel := by
+  obtain ⟨steps, dirs, bps, hfs, hbuilt, _, hbo, hsub, hids, hl⟩ := package_facts hn hnd hac h
+  obtain ⟨_, h2, h3, h4⟩ := planLoop_ok _ _ hl
+  rw [hbuilt] at hb
+  obtain ⟨s, hs, hsid⟩ := List.mem_map.1 hb
+  obtain ⟨bp', hbp', before, e1, e2, e3, e4⟩ := h4 s hs
+  have hbpeq : bp' = bp := eq_of_id_eq hnd (hsub bp' hbp') hbp (by rw [← e1, hsid])
+  subst hbpeq
+  refine ⟨before, s.items, e3, ?_, ?_⟩
+  · intro e he
+    rcases e4 e he with h5 | ⟨b, hb', rfl⟩
+    · simp at h5
+    · refine ⟨b, hsub b hb', ?_, rfl⟩
+      rw [← hids]; exact List.mem_map.2 ⟨b, hb', rfl⟩
+  · intro rel
+    have hlen : ∀ a ∈ steps, a.dest.length = 3 := by
+      intro a ha
+      obtain ⟨b, _, _, _, e2', _, _⟩ := h4 a ha
+      rw [e2']; rfl
+    have hndd : (steps.map (·.dest)).Nodup := by
+      rw [h3]
+      apply nodup_map_of_inj_on
+      · have : (bps.map (·.id)).Nodup := by rw [hids]; exact hbo.nodup
+        exact nodup_of_nodup_map _ this
+      · intro a ha b hb' hab
+        have hab' : (fun bp : Buildpack => dirName bp.id) a = (fun bp : Buildpack => dirName bp.id) b :=
+          (List.cons.inj (List.cons.inj (List.cons.inj hab).2).2).1
+        exact inj_of_nodup_map (fun bp : Buildpack => dirName bp.id) hnames (hsub a ha) (hsub b hb') hab'
+    rw [hfs, ← e2, lookup_steps_inside steps 3 hlen hndd s hs rel seed]
+
+end CnbVerif.Packager
